@@ -45,22 +45,23 @@ type vfTreeRun struct {
 	model    map[uint64]uint64
 	everUsed map[uint64]struct{}
 	// statistics for the evidence
-	maxLevels      int
-	maxPages       int
-	delPartial     bool // a DeleteBelow removed >=1 and kept >=1 key
-	recycled       bool // a page went to the free list
-	reused         bool // ... and a later Set took a page from the free list
-	reopens        int
-	reopenWithFree int // reopen with >= 2 free pages
-	reuseAfterOpen bool
-	sawReopen      bool
-	grew           bool
-	filledExactly  int // fill-to plans that stopped exactly at the requested page count
-	fileGrew       int // persistent: bulk inserts after which the file is larger than its initial 1 MiB
-	squeezed       int
-	grewOnAlloc    int  // Sets that allocated a page right after the buffer was trimmed (reallocation during the Set)
-	hitMaxKeyDel   bool // a DeleteBelow had to delete the largest key of some leaf
-	executed       int
+	maxLevels           int
+	maxPages            int
+	delPartial          bool // a DeleteBelow removed >=1 and kept >=1 key
+	recycled            bool // a page went to the free list
+	reused              bool // ... and a later Set took a page from the free list
+	reopens             int
+	reopenWithFree      int // reopen with >= 2 free pages
+	reuseAfterOpen      bool
+	sawReopen           bool
+	grew                bool
+	filledExactly       int // fill-to plans that stopped exactly at the requested page count
+	filledExactMultiple int // ... of a mapping whose usable part is an exact multiple of the page size
+	fileGrew            int // persistent: bulk inserts after which the file is larger than its initial 1 MiB
+	squeezed            int
+	grewOnAlloc         int  // Sets that allocated a page right after the buffer was trimmed (reallocation during the Set)
+	hitMaxKeyDel        bool // a DeleteBelow had to delete the largest key of some leaf
+	executed            int
 }
 
 const vfMaxLegalKey = uint64(math.MaxUint64 - 1)
@@ -471,6 +472,25 @@ func (r *vfTreeRun) apply(op *vfTreeOp) (err error) {
 			r.filledExactly++
 		}
 		return r.checkFull("after fill-to-page-count")
+	case "filltomapped":
+		// sequential Sets until all but op.N of the whole page slots of the CURRENT mapping are in use (N may be negative:
+		// go beyond it). After a reopen the mapping is the whole file, and its usable part can be an exact multiple of
+		// the page size - which it never is for a new file.
+		target := len(t.data)/pageSize - 1 - op.N
+		k := op.K
+		for i := 0; i < 4000000 && int(t.nextPage-1) < target; i++ {
+			t.Set(k, op.V)
+			r.model[k] = op.V
+			r.everUsed[k] = struct{}{}
+			k++
+		}
+		if int(t.nextPage-1) == target && op.N == 0 {
+			r.filledExactly++
+			if len(t.data)%pageSize == 0 {
+				r.filledExactMultiple++
+			}
+		}
+		return r.checkFull("after fill-to-last-mapped-slot")
 	case "reopen":
 		if !r.c.Persistent {
 			return nil
@@ -726,6 +746,9 @@ func vfTreeEvidence(ev *vfEvidence, r *vfTreeRun, c *vfTreeCase) {
 	if r.filledExactly > 0 {
 		cl = append(cl, "closed-with-(nearly)-every-page-slot-of-the-initial-file-in-use")
 	}
+	if r.filledExactMultiple > 0 {
+		cl = append(cl, "closed-with-the-last-slot-of-an-exactly-divisible-mapping-in-use")
+	}
 	if r.reopenWithFree > 0 {
 		cl = append(cl, "reopen-with>=2-free-pages")
 	}
@@ -773,6 +796,14 @@ func vfTreeProperty(ev *vfEvidence, persistent bool) func(t *rapid.T) {
 			slots := (minSize - 8) / (16 * (c.MaxKeys + 1)) // whole page slots in the mapping, slot 0 included
 			target := slots - 1 + rapid.IntRange(-2, 1).Draw(t, "filldelta")
 			plan = []vfTreeOp{{Kind: "fillto", K: 7000000, N: target, V: 9}, {Kind: "reopen"}, {Kind: "bulk", K: 900000000, C: 5, N: 30, V: 8}, {Kind: "reopen"}}
+			if rapid.Bool().Draw(t, "secondmapping") {
+				// outgrow the initial mapping by a few pages (the file grows), reopen (now the whole file is mapped), fill
+				// that mapping up to its last whole slot, reopen, go on
+				over := slots + rapid.IntRange(1, 6).Draw(t, "over")
+				plan = []vfTreeOp{{Kind: "fillto", K: 7000000, N: over, V: 9}, {Kind: "reopen"},
+					{Kind: "filltomapped", K: 300000000, N: rapid.IntRange(-1, 2).Draw(t, "left"), V: 10}, {Kind: "reopen"},
+					{Kind: "bulk", K: 900000000, C: 5, N: 30, V: 8}, {Kind: "reopen"}}
+			}
 			planAt = rapid.IntRange(0, nops).Draw(t, "planat")
 		}
 		r, err := vfRunTreeCase(c, func(r *vfTreeRun) *vfTreeOp {
